@@ -9,6 +9,7 @@ for d in seeded/C*/; do
   id=$(basename $d); prop=${id%%-*}
   patch=$d/patch.diff; [ -f $d/patch.rebased.diff ] && patch=$d/patch.rebased.diff
   if grep -q '"status_after_fixes": "neutralised' $d/meta.json 2>/dev/null; then echo "$id NEUTRALISED (precondition removed by a fix commit)" >> $out; continue; fi
+  if grep -q '"status": "not reported by any check' $d/meta.json 2>/dev/null; then echo "$id OUTSIDE (outside what the listed properties state; see meta.json)" >> $out; continue; fi
   s=$(date +%s)
   res=$(LINES_MAX=40 tools/seedtest.sh $prop $(pwd)/$patch $TIER 2>&1)
   e=$(date +%s)
